@@ -10,7 +10,7 @@
 //          file_on <which> payload   payload "0" / "1"
 //          write_file payload="<path>\n<content>" | mkdir payload=path | chmod payload="<octal> <path>"
 //          run_string | run_file(path) | accumulate(text, split in lines) | run_accumulated
-//          load_db_file(path) | load_db_string(text) | load_small
+//          load_db_file(path) | load_db_string(text) | load_small | reload_probe payload="heavy"|"light"
 // "@S@" in any payload is replaced by the scratch directory.  Every case starts from a new instance with the
 // small database loaded; after every failed run/load the runner reloads the small database and compares the
 // probe with the fresh answer (clause 4), then reloads again so that the next op sees a clean instance.
@@ -71,6 +71,16 @@ static void apply(FI *I, const Switches &sw)
 
 static void run_case(const std::string &id, const std::vector<Op> &ops)
 {
+	for (size_t k = 0; k < ops.size(); k++) {
+		const std::string &n = ops[k].name;
+		if (n == "run_string" || n == "accumulate" || n == "load_db_string" || n == "write_file")
+			if (const char *kt = known_trigger(ops[k].payload)) {
+				g_cnt[std::string("skipped_known_") + kt]++;
+				printf("RES %s skipped known=%s\n", id.c_str(), kt);
+				fflush(stdout);
+				return;
+			}
+	}
 	// new instance per case: file names and switches set by an earlier case must not leak into this one
 	if (g_I) { FI *old = g_I; g_I = 0; g_inlib++; delete old; g_inlib--; }
 	g_I = new FI;
@@ -101,6 +111,11 @@ static void run_case(const std::string &id, const std::vector<Op> &ops)
 		if (o.name == "mkdir") { mkdir(pl.c_str(), 0777); continue; }
 		if (o.name == "chmod") { size_t p = pl.find(' '); chmod(pl.substr(p + 1).c_str(), (mode_t)strtol(pl.substr(0, p).c_str(), 0, 8)); continue; }
 		if (o.name == "load_small") { load_small(I, "on request"); continue; }
+		if (o.name == "reload_probe") {      // clause (4) on request (fault sequences: also after a call that succeeded)
+			reload_and_probe(I, "fault sequence", pl == "heavy" ? 0 : h | (1u << 17));
+			load_small(I, "after the probe");
+			continue;
+		}
 		if (o.name == "accumulate") {
 			std::string t(pl.c_str());
 			size_t a = 0;
@@ -138,11 +153,11 @@ static void run_case(const std::string &id, const std::vector<Op> &ops)
 		g_cnt[std::string("class_") + (is_load ? (ci.failed ? "load_fail" : "load_ok") : ci.cls)]++;
 		if (!is_load && ci.reached && ci.keyword && count_nonblank_lines(pl.data(), pl.size()) >= 2) nt = true;
 		if (ci.failed) {
-			reload_and_probe(I, what.c_str());
+			reload_and_probe(I, what.c_str(), h);
 			load_small(I, "after the probe");
 		}
 	}
-	if (nt && g_nt.size() < NT_CAP) g_nt.insert(h);
+	if (nt) note_nt_hash(h);
 	g_cnt["cases"]++;
 	printf("RES %s ok nt=%d cls=%s rcs=%s\n", id.c_str(), nt ? 1 : 0, classes.empty() ? "-" : classes.c_str(), rcs.empty() ? "-" : rcs.c_str());
 	fflush(stdout);
